@@ -24,13 +24,14 @@ fn main() {
             let count: u64 = arg(&args, "--count").unwrap_or("10").parse().unwrap();
             let shards: u64 = arg(&args, "--shards").unwrap_or("1").parse().unwrap();
             let profile = arg(&args, "--profile").unwrap_or("mixed").to_string();
+            let with_values = args.iter().any(|a| a == "--values");
             let out = arg(&args, "--out-dir").unwrap_or(".").to_string();
             fs::create_dir_all(&out).unwrap();
             let mut vfiles = Vec::new();
             let mut jsons: Vec<Vec<serde_json::Value>> = Vec::new();
             for sh in 0..shards {
                 let mut f = fs::File::create(format!("{}/run_{}.v", out, sh)).unwrap();
-                writeln!(f, "From Coq Require Import List NArith ZArith String.\nFrom Cambrian Require Import Check.RunCheck.\nImport ListNotations.\nLocal Open Scope N_scope.\nSet Printing Width 100000.\nSet Printing Depth 100000.").unwrap();
+                writeln!(f, "From Coq Require Import List NArith ZArith String.\nFrom Cambrian Require Import Syntax Codec Check.OpsCheck Check.RunCheck Check.ValsCheck.\nImport ListNotations.\nLocal Open Scope N_scope.\nSet Printing Width 100000.\nSet Printing Depth 100000.").unwrap();
                 vfiles.push(f);
                 jsons.push(Vec::new());
             }
@@ -43,6 +44,18 @@ fn main() {
                 write!(vfiles[sh], "{}", runstream::obs_to_coq(&o, &name)).unwrap();
                 writeln!(vfiles[sh], "Eval vm_compute in (judge_run {}).", name).unwrap();
                 let mut js = runstream::obs_to_json(&o);
+                if with_values {
+                    let sp = cambrian::spec_util::from_yaml_str(runstream::SPECS[s.spec]).unwrap();
+                    let vals: Vec<String> = o
+                        .strings
+                        .iter()
+                        .map(|t| match serde_json::from_str::<serde_json::Value>(t) {
+                            Ok(j) => guessstream::json_to_coq(&j),
+                            Err(_) => "JNull".to_string(),
+                        })
+                        .collect();
+                    writeln!(vfiles[sh], "Eval vm_compute in (judge_vals {} {} [{}]).", idx, opsstream::spec_to_coq(&sp.0), vals.join("; ")).unwrap();
+                }
                 if profile == "twin" {
                     // same actions again (same process), and the same completion order with different spacing
                     let (o2, _) = runstream::run_schedule_ex(&s, Some((&actions, false)));
